@@ -87,9 +87,9 @@ def register_package(pkg: str, version: str, schema_classes: List[type], modname
     mod = module(modname)
     setattr(mod, "SynthExporter", type("SynthExporter", (), {}))
     d = SynthDist(pkg, version, {"metador_schema": eps,
-                                 "metador_exporter": [(str(to_ep_name(pkg.replace("-", ".") + ".exp", (0, 1, 0))), f"{modname}:SynthExporter")]})
+                                 "metador_exporter": [(str(to_ep_name("vx.e" + ("".join(ch for ch in pkg if ch.isalpha()).lower()[:12] or "x"), (0, 1, 0))), f"{modname}:SynthExporter")]})
     _DISTS[pkg] = d
     entrypoints.pkg_meta[pkg] = PluginPkgMeta.for_package(pkg)
-    for ep in d.entry_points:
+    for ep in d.entry_points.select(group="metador_schema"):
         schemas._add_ep(ep.name, ep)
     return d
